@@ -112,7 +112,7 @@ func NewApp(db *simdb.DB, pr Pruning, simNode *node.Node) (app *App, err error) 
 		auth.NewAppModule(app.AK),
 		pos.NewAppModule(app.PK, app.AK),
 		gov.NewAppModule(app.GK),
-		newSimModule(app.PK),
+		newSimModule(app.PK, keys[posTypes.StoreKey]),
 	)
 	app.MM.SetOrderInitGenesis(auth.ModuleName, posTypes.ModuleName, govTypes.ModuleName, simmodName)
 	app.MM.SetOrderBeginBlockers(auth.ModuleName, posTypes.ModuleName, govTypes.ModuleName, simmodName)
